@@ -89,6 +89,11 @@ TRule ==
         /\ incon' = incon \cup (IF e.cat = "card" /\ e.cardAfter # <<>> /\ e.bg # <<>> /\ Meets(e.cardAfter, e.bg, tgt) = "CLOSE" THEN {"C08_CardMeetsTarget"} ELSE {})
                           \* what the card shows as background is presentation, not part of the property: drift only
                           \cup (IF e.cat = "card" /\ ~e.cardBgOk THEN {"D_CardBackground"} ELSE {})
+                          \* the two badges of a card are the WCAG levels (normal text) of the colour before and after: drift only
+                          \cup (IF e.cat = "card" /\ e.known = "" /\ e.apiAlt = <<>> /\ e.cardAfter # <<>> /\ e.bg # <<>> /\ e.text # <<>>
+                                    /\ Level(e.cardAfter, e.bg, FALSE) # "CLOSE" /\ Level(e.text, e.bg, FALSE) # "CLOSE"
+                                    /\ (e.cardLevels[2] # Level(e.cardAfter, e.bg, FALSE) \/ e.cardLevels[1] # Level(e.text, e.bg, FALSE))
+                                 THEN {"D_CardLevels"} ELSE {})
                           \cup (IF e.cat = "rest" /\ e.outText # <<>> /\ Meets(e.outText, e.outBg, tgt) = "CLOSE" THEN {"C08_CountedReadableButFails"} ELSE {})
         /\ nRest' = nRest + (IF e.cat = "rest" THEN 1 ELSE 0)
         /\ nCard' = nCard + (IF e.cat = "card" THEN 1 ELSE 0)
